@@ -18,6 +18,7 @@ theorem stepC_none (tbl : UnitTable) (env : Env) (it : Item) (h : isCase it = fa
   | unitdef a b c => simp only [stepC]; cases step tbl env (.unitdef a b c) <;> rfl
   | unitref a b c => simp only [stepC]; cases step tbl env (.unitref a b c) <;> rfl
   | optref a b => simp only [stepC]; cases step tbl env (.optref a b) <;> rfl
+  | unitimp a b => simp only [stepC]; cases step tbl env (.unitimp a b) <;> rfl
 
 /-- without `@case` lines the chain-aware loop is the plain main loop -/
 theorem foldlM_stepC_none (tbl : UnitTable) (items : List Item) (env : Env)
